@@ -570,6 +570,42 @@ func compareC04(b *Behaviour, w *World, st *Step, n int, inst *sut.Instance, sca
 			}
 		}
 	}
+	// recovery.Query from the start lists every record at the offset the independent scan found
+	if n == len(b.Steps) {
+		res.Checks++
+		var qoffs []int64
+		var qerr error
+		ok, pan := sut.Watchdog(callTimeout, func() {
+			r, reg, err := tape.OpenTapeReadOnly(inst.Drive)
+			if err != nil {
+				qerr = err
+				return
+			}
+			defer r.Close()
+			rc, _, err := inst.Keys.Crypto(inst.Cfg)
+			if err != nil {
+				qerr = err
+				return
+			}
+			pc := config.PipeConfig{Compression: inst.Cfg.Compression, Encryption: inst.Cfg.Encryption, Signature: inst.Cfg.Signature, RecordSize: rs}
+			_, qerr = recovery.Query(config.DriveReaderConfig{Drive: r, DriveIsRegular: reg}, mtio.MagneticTapeIO{}, pc, rc, 0, 0, func(h *config.Header) {
+				qoffs = append(qoffs, h.Record*int64(rs)+h.Block)
+			})
+		})
+		if !ok || pan != nil {
+			add("C04", n, st.Call, "recovery.Query(0, 0) did not return / panicked: %v", pan)
+		} else if qerr != nil {
+			add("C04", n, st.Call, "recovery.Query(0, 0) failed: %v", qerr)
+		} else {
+			want := make([]int64, len(scan.Recs))
+			for i := range scan.Recs {
+				want[i] = scan.Recs[i].Off
+			}
+			if fmt.Sprint(qoffs) != fmt.Sprint(want) {
+				add("C04", n, st.Call, "recovery.Query(0, 0) lists records at blocks %v, an independent tar reader finds them at %v", qoffs, want)
+			}
+		}
+	}
 	// restoring a whole directory fetches several positions through ONE reader
 	for _, dp := range view.SortedPaths() {
 		if view[dp].Kind != "dir" || dp == "/" {
